@@ -1022,4 +1022,39 @@ void op_shrink_chain_then_exit(World& W, int point)
   for (unsigned k = 0; k < n; ++k) op_log(W, wi, true, point, -1, static_cast<int>(SKind::Normal), true);
   if (W.c->pick(3) != 0) op_exit_thread(W, wi);
 }
+
+// C05 on unbounded queues: a thread re-allocates its queue twice with nothing in between (two shrink requests, or a shrink
+// to a tiny buffer followed by a statement that does not fit it), so that an EMPTY buffer sits between the one the
+// backend is on and the one holding the thread's next statement; then that thread logs, then another thread logs a
+// little later, then more than the grace period passes. Both statements are older than the grace period at the next
+// pass and were enqueued on time: they must be written in timestamp order.
+void op_shrink_chain_then_pair(World& W)
+{
+  if (kBounded || W.in_poll) return;
+  int a = -1, b = -1;
+  for (size_t k = 0; k < W.workers.size(); ++k)
+  {
+    if (!W.workers[k].alive || worker_busy(W, static_cast<int>(k))) continue;
+    if (a < 0 && W.workers[k].has_logged && worker_queue_capacity(W, static_cast<int>(k)) >= 4 * 64) a = static_cast<int>(k);
+    else if (b < 0) b = static_cast<int>(k);
+  }
+  if (a < 0) return;
+  if (b < 0) b = op_start_thread(W);
+  if (b < 0 || b == a) return;
+  size_t cap0 = worker_queue_capacity(W, a);
+  W.r->label("shrink_chain_then_two_threads_log");
+  if (W.c->pick(2) == 0)
+  {
+    op_shrink(W, a, cap0 / 2);
+    if (W.r->failed) return;
+    op_shrink(W, a, cap0 / 4);
+  }
+  else op_shrink(W, a, 64); // the next statement does not fit 64 bytes: the queue grows at once, the 64-byte buffer stays empty
+  if (W.r->failed) return;
+  op_log(W, a, false, 0, -1, static_cast<int>(SKind::Normal), false);
+  sim::core().vclock += W.c->pick(3);
+  op_log(W, b, false, 0, -1, static_cast<int>(SKind::Normal), true);
+  sim::core().vclock += W.grace_ns + 1 + W.c->pick(3);
+  W.log_op("Tick(g+)");
+}
 } // namespace
